@@ -2,6 +2,7 @@
    Statements only; every proof is `exact <lemma>`. *)
 From Coq Require Import List NArith Arith Bool.
 From RPCX Require Import Client.ClientSM Client.ClientProofs Client.ClientLive.
+From RPCX Require Client.Pending Client.PendingGen Client.PendingProofs Client.PendingGenProofs.
 Import ListNotations.
 
 (* (i) at most once: for every set of calls and EVERY schedule of registrations, encode failures,
@@ -44,7 +45,40 @@ Example C05_nonvacuous :
   = [[RConnErr]; [RConnErr]].
 Proof. vm_compute. reflexivity. Qed.
 
+(* (iv) the same, at the granularity of single statements, about the code as it is now.  Every control-flow path of
+   send, SendRaw, call, input and Close is regenerated from client/client.go on every run (tools/gopending2v ->
+   Client/PendingGen.v) as a list of operations on client.mutex, client.pending, the *Call variables and the
+   shutdown / closing flags; every one of them obeys the discipline of Client/Pending.v: a call is written to or
+   completed only by the function it was handed to, before that function registers it, or by the path that looked it
+   up AND removed it from the table within one critical section - and then once. *)
+Theorem C05_the_client_paths_obey_the_discipline :
+  forallb (Pending.scheck false Pending.ainit) PendingGenProofs.all_paths = true /\
+  forallb (Pending.scheck true Pending.ainit) PendingGenProofs.strict_paths = true.
+Proof. exact (conj PendingGenProofs.all_paths_are_disciplined PendingGenProofs.strict_paths_are_strict). Qed.
+
+(* ... so that any number of goroutines, each running any sequence of these paths (each range loop any number of
+   times through any of its bodies), interleaved statement by statement in ANY order, never complete a call twice,
+   never touch a nil call, never touch a call that sits in the table and never touch a call another goroutine has
+   touched since it left the table (bad = false), and no call's completion count exceeds one. *)
+Theorem C05_no_call_completes_twice_under_any_interleaving : forall progs sched,
+  (forall t, PendingGenProofs.runs_of PendingGenProofs.all_paths (progs t)) ->
+  Pending.bad (Pending.run sched (Pending.start progs)) = false /\
+  forall c, Pending.dones (Pending.run sched (Pending.start progs)) c <= 1.
+Proof. exact PendingGenProofs.client_goroutines_are_safe. Qed.
+
+(* ... and, SendRaw apart (it registers without looking at the flags and relies on the write to the closed connection
+   failing), whenever the mutex is free a client that is closing or shut down has an empty table: no call can be
+   registered behind the back of the reader's final sweep or of Close. *)
+Theorem C05_no_call_is_left_in_the_table_of_a_client_that_shut_down : forall progs sched,
+  (forall t, PendingGenProofs.runs_of PendingGenProofs.strict_paths (progs t)) ->
+  let w := Pending.run sched (Pending.start progs) in
+  Pending.lock w = None -> Pending.shut w || Pending.closing w = true -> Pending.pend w = [].
+Proof. exact PendingGenProofs.client_goroutines_strand_no_call. Qed.
+
 Print Assumptions C05_never_signalled_twice.
 Print Assumptions C05_no_call_left_hanging.
 Print Assumptions C05_rejected_promptly.
 Print Assumptions C05_invariants_reachable.
+Print Assumptions C05_the_client_paths_obey_the_discipline.
+Print Assumptions C05_no_call_completes_twice_under_any_interleaving.
+Print Assumptions C05_no_call_is_left_in_the_table_of_a_client_that_shut_down.
